@@ -1,4 +1,342 @@
-/- Proofs/C06Status.lean — lemmas about the status-file regexes (work in progress). -/
+/- Proofs/C06Status.lean — lemmas about the status-file regexes of C06. -/
 import PsutilModel.Proofs.C06
 namespace Psutil.C06
+open Spec
+
+/-! ### digit runs and groups -/
+
+theorem spanDigits_append (d rest : Bytes) (hd : ∀ c ∈ d, isDigit c = true)
+    (hr : ∀ c, rest.head? = some c → isDigit c = false) : spanDigits (d ++ rest) = (d, rest) := by
+  induction d with
+  | nil =>
+    cases rest with
+    | nil => rfl
+    | cons c cs => simp [spanDigits, hr c rfl]
+  | cons x xs ih =>
+    have hx : isDigit x = true := hd x (by simp)
+    have ih' := ih (fun c hc => hd c (by simp [hc]))
+    simp [spanDigits, hx, ih']
+
+/-- one `\t(\d+)` group over a kernel-printed number followed by a non-digit -/
+theorem matchGroups_succ_dec (n v : Nat) (rest : Bytes)
+    (hr : ∀ c, rest.head? = some c → isDigit c = false) :
+    matchGroups (n + 1) (9 :: (renderDec v ++ rest))
+      = (match matchGroups n rest with
+         | some (ds, r) => some (renderDec v :: ds, r)
+         | none => none) := by
+  have hs := spanDigits_append (renderDec v) rest (renderDec_isDigit v) hr
+  have hne : (renderDec v).isEmpty = false := by
+    cases h : renderDec v with
+    | nil => exact absurd h (renderDec_ne_nil v)
+    | cons _ _ => rfl
+  simp [matchGroups, hs, hne]
+  rfl
+
+/-! ### literal prefixes -/
+
+theorem dropPrefix?_append (k rest : Bytes) : dropPrefix? k (k ++ rest) = some rest := by
+  induction k with
+  | nil => cases rest <;> rfl
+  | cons x xs ih => simp [dropPrefix?, ih]
+
+theorem dropPrefix?_eq_some {k s r : Bytes} (h : dropPrefix? k s = some r) : s = k ++ r := by
+  induction k generalizing s with
+  | nil => cases s <;> simp [dropPrefix?] at h <;> simp [h]
+  | cons x xs ih =>
+    cases s with
+    | nil => simp [dropPrefix?] at h
+    | cons c cs =>
+      by_cases hxc : x = c
+      · subst hxc
+        simp only [dropPrefix?, if_true] at h
+        rw [ih h]; rfl
+      · simp [dropPrefix?, hxc] at h
+
+/-- a line with another key never matches `KEY:` at its start -/
+theorem dropPrefix?_other_key (k1 k2 more : Bytes) (hne : k2 ≠ k1) (h1 : 58 ∉ k1) (h2 : 58 ∉ k2) :
+    dropPrefix? (k1 ++ [58]) (k2 ++ 58 :: more) = none := by
+  induction k1 generalizing k2 with
+  | nil =>
+    cases k2 with
+    | nil => exact absurd rfl hne
+    | cons c cs =>
+      have hc : (58 : Nat) ≠ c := fun e => h2 (by simp [e])
+      simp [dropPrefix?, hc]
+  | cons x xs ih =>
+    cases k2 with
+    | nil =>
+      have hx : x ≠ 58 := fun e => h1 (by simp [e])
+      simp [dropPrefix?, hx]
+    | cons c cs =>
+      by_cases hxc : x = c
+      · subst hxc
+        have : cs ≠ xs := fun e => hne (by rw [e])
+        simp only [List.cons_append, dropPrefix?, if_true]
+        exact ih cs this (fun m => h1 (by simp [m])) (fun m => h2 (by simp [m]))
+      · simp [dropPrefix?, hxc]
+
+/-! ### anchored search: only line starts are tried -/
+
+theorem findAllGo_anch_rest_of_line (key : Bytes) (n : Nat) (l rest : Bytes) (hl : 10 ∉ l) :
+    findAllGo true key n 0 false (l ++ 10 :: rest) = findAllGo true key n 0 true rest := by
+  induction l with
+  | nil => simp [findAllGo]
+  | cons c cs ih =>
+    have hc : (c == 10) = false := by
+      have : c ≠ 10 := fun e => hl (by simp [e])
+      simp [this]
+    simp only [List.cons_append, findAllGo, Bool.not_false, Bool.and_self, if_true, hc]
+    exact ih (fun m => hl (by simp [m]))
+
+theorem findAllGo_anch_skip_line (key : Bytes) (n : Nat) (l rest : Bytes) (hl : 10 ∉ l)
+    (hm : matchAt key n (l ++ 10 :: rest) = none) :
+    findAllGo true key n 0 true (l ++ 10 :: rest) = findAllGo true key n 0 true rest := by
+  cases l with
+  | nil =>
+    simp only [List.nil_append] at hm ⊢
+    simp [findAllGo, hm]
+  | cons c cs =>
+    have hc : (c == 10) = false := by
+      have : c ≠ 10 := fun e => hl (by simp [e])
+      simp [this]
+    simp only [List.cons_append] at hm ⊢
+    simp only [findAllGo, Bool.not_true, Bool.and_false, Bool.false_eq_true, if_false, hm, hc]
+    exact findAllGo_anch_rest_of_line key n cs rest (fun m => hl (by simp [m]))
+
+theorem findAllGo_anch_hit (key : Bytes) (n : Nat) (c : Nat) (cs : Bytes) (gs : List Bytes) (r : Bytes)
+    (hm : matchAt key n (c :: cs) = some (gs, r)) :
+    ∃ tl, findAllGo true key n 0 true (c :: cs) = gs :: tl := by
+  refine ⟨findAllGo true key n (cs.length - r.length) (c == 10) cs, ?_⟩
+  simp [findAllGo, hm]
+
+/-! ### whole status files, anchored patterns -/
+
+/-- a line the anchored pattern `^K:` skips: another key, one line -/
+def Skippable (K : Bytes) (kv : Bytes × Bytes) : Prop :=
+  kv.1 ≠ K ∧ 58 ∉ kv.1 ∧ 10 ∉ kv.1 ∧ 10 ∉ kv.2
+
+theorem renderLines_append (a b : List (Bytes × Bytes)) :
+    renderLines (a ++ b) = renderLines a ++ renderLines b := by
+  simp [renderLines]
+
+theorem renderLines_cons (kv : Bytes × Bytes) (b : List (Bytes × Bytes)) :
+    renderLines (kv :: b) = statusLine kv ++ renderLines b := by
+  simp [renderLines]
+
+theorem statusLine_shape (kv : Bytes × Bytes) (rest : Bytes) :
+    statusLine kv ++ rest = (kv.1 ++ [58, 9] ++ kv.2) ++ 10 :: rest := by
+  simp [statusLine]
+
+theorem skip_lines (K : Bytes) (hK : 58 ∉ K) (n : Nat) (ls : List (Bytes × Bytes)) (rest : Bytes)
+    (h : ∀ kv ∈ ls, Skippable K kv) :
+    findAllGo true (K ++ [58]) n 0 true (renderLines ls ++ rest)
+      = findAllGo true (K ++ [58]) n 0 true rest := by
+  induction ls with
+  | nil => simp [renderLines]
+  | cons kv ls ih =>
+    obtain ⟨hne, h58, h10k, h10v⟩ := h kv (by simp)
+    rw [renderLines_cons, List.append_assoc, statusLine_shape]
+    rw [findAllGo_anch_skip_line]
+    · exact ih (fun x hx => h x (by simp [hx]))
+    · intro hm
+      simp only [List.mem_append, List.mem_cons, List.not_mem_nil, or_false] at hm
+      rcases hm with (h | h | h) | h
+      · exact h10k h
+      · omega
+      · omega
+      · exact h10v h
+    · unfold matchAt
+      have : (kv.1 ++ [58, 9] ++ kv.2) ++ 10 :: (renderLines ls ++ rest)
+          = kv.1 ++ 58 :: (9 :: kv.2 ++ 10 :: (renderLines ls ++ rest)) := by simp
+      rw [this, dropPrefix?_other_key K kv.1 _ hne hK h58]
+
+theorem escName_no_nl (c : Bytes) : 10 ∉ escName c := by
+  induction c using escName.induct with
+  | case1 => simp [escName]
+  | case2 cs ih => simp [escName, ih]
+  | case3 cs ih => simp [escName, ih]
+  | case4 c cs h1 h2 ih =>
+    rw [escName]
+    · intro hm
+      rcases List.mem_cons.mp hm with h | h
+      · exact h1 h.symm
+      · exact ih h
+    · exact h1
+    · exact h2
+
+theorem tabbed_chars (ns : List Nat) : ∀ c ∈ tabbed ns, c = 9 ∨ isDigit c = true := by
+  intro c hc
+  rcases mem_joinWith hc with h | ⟨f, hf, hcf⟩
+  · left; simpa using h
+  · right
+    obtain ⟨n, _, rfl⟩ := List.mem_map.mp hf
+    exact renderDec_isDigit n c hcf
+
+theorem tabbed_no_nl (ns : List Nat) : 10 ∉ tabbed ns := by
+  intro h
+  rcases tabbed_chars ns 10 h with h | h
+  · omega
+  · simp [isDigit] at h
+
+theorem key_facts :
+    58 ∉ keyUid ∧ 58 ∉ keyGid ∧ 58 ∉ keyThreads ∧ 58 ∉ keyName ∧ 10 ∉ keyName ∧ 10 ∉ keyUid ∧ 10 ∉ keyGid
+    ∧ keyName ≠ keyUid ∧ keyName ≠ keyGid ∧ keyName ≠ keyThreads ∧ keyUid ≠ keyGid
+    ∧ keyUid ≠ keyThreads ∧ keyGid ≠ keyThreads := by decide
+
+theorem skippable_name (K : Bytes) (hK : keyName ≠ K) (comm : Bytes) :
+    Skippable K (keyName, escName comm) :=
+  ⟨hK, key_facts.2.2.2.1, key_facts.2.2.2.2.1, escName_no_nl comm⟩
+
+theorem skippable_idLine (K k : Bytes) (v : Nat × Nat × Nat × Nat) (hK : k ≠ K) (h58 : 58 ∉ k)
+    (h10 : 10 ∉ k) : Skippable K (idLine k v) :=
+  ⟨hK, h58, h10, tabbed_no_nl _⟩
+
+theorem skippable_other (K : Bytes) (kv : Bytes × Bytes) (hK : kv.1 ≠ K) (h : OtherLine kv) :
+    Skippable K kv := ⟨hK, h.2.2.2.1, h.2.2.2.2.1, h.2.2.2.2.2⟩
+
+/-- the id line itself: `K:\ta\tb\tc\td\n` gives the first three numbers -/
+theorem matchAt_idLine (k : Bytes) (v : Nat × Nat × Nat × Nat) (rest : Bytes) :
+    ∃ r, matchAt (k ++ [58]) 3 (statusLine (idLine k v) ++ rest)
+      = some ([renderDec v.1, renderDec v.2.1, renderDec v.2.2.1], r) := by
+  obtain ⟨a, b, c, d⟩ := v
+  have hshape : statusLine (idLine k (a, b, c, d)) ++ rest
+      = (k ++ [58]) ++ (9 :: (renderDec a ++ (9 :: (renderDec b ++ (9 :: (renderDec c
+          ++ (9 :: (renderDec d ++ 10 :: rest)))))))) := by
+    simp [statusLine, idLine, tabbed, joinWith]
+  refine ⟨9 :: (renderDec d ++ 10 :: rest), ?_⟩
+  unfold matchAt
+  rw [hshape, dropPrefix?_append]
+  dsimp only
+  have h9 : ∀ (t : Bytes) (c : Nat), (9 :: t).head? = some c → isDigit c = false := by
+    intro t c h; simp at h; subst h; decide
+  rw [matchGroups_succ_dec 2 a _ (h9 _), matchGroups_succ_dec 1 b _ (h9 _),
+    matchGroups_succ_dec 0 c _ (h9 _)]
+  simp [matchGroups]
+
+theorem matchAt_numLine (k : Bytes) (v : Nat) (rest : Bytes) :
+    matchAt (k ++ [58]) 1 (statusLine (k, renderDec v) ++ rest) = some ([renderDec v], 10 :: rest) := by
+  have hshape : statusLine (k, renderDec v) ++ rest = (k ++ [58]) ++ (9 :: (renderDec v ++ 10 :: rest)) := by
+    simp [statusLine]
+  unfold matchAt
+  rw [hshape, dropPrefix?_append]
+  dsimp only
+  rw [matchGroups_succ_dec 0 v _ (by intro c h; simp at h; subst h; decide)]
+  simp [matchGroups]
+
+theorem statusLine_cons (kv : Bytes × Bytes) (rest : Bytes) (hk : kv.1 ≠ []) :
+    ∃ c cs, statusLine kv ++ rest = c :: cs := by
+  cases h : kv.1 with
+  | nil => exact absurd h hk
+  | cons c cs => exact ⟨c, cs ++ [58, 9] ++ kv.2 ++ [10] ++ rest, by simp [statusLine, h]⟩
+
+/-- general shape: skippable lines, then the line with key `K` -/
+theorem findAll_anch_lines (K : Bytes) (hK : 58 ∉ K) (hKne : K ≠ []) (n : Nat) (L1 : List (Bytes × Bytes))
+    (v : Bytes) (rest : Bytes) (gs : List Bytes) (r : Bytes)
+    (hskip : ∀ kv ∈ L1, Skippable K kv)
+    (hm : matchAt (K ++ [58]) n (statusLine (K, v) ++ rest) = some (gs, r)) :
+    ∃ tl, findAll true (K ++ [58]) n (renderLines L1 ++ (statusLine (K, v) ++ rest)) = gs :: tl := by
+  unfold findAll
+  rw [skip_lines K hK n L1 _ hskip]
+  obtain ⟨c, cs, hc⟩ := statusLine_cons (K, v) rest hKne
+  rw [hc] at hm ⊢
+  exact findAllGo_anch_hit _ n c cs gs r hm
+
+/-! ### uids / gids / num_threads on a kernel-rendered status file -/
+
+theorem decOf_renderDec (n : Nat) : decOf (renderDec n) = .ok n := by
+  simp [decOf, parseDec_renderDec]
+
+theorem readStatus_good (c : Cfg) (hg : c.Good) (f : Bytes) : readStatus c f = f := by
+  simp [readStatus, hg.statusBinary]
+
+theorem ids3_of_head (anch : Bool) (key data : Bytes) (a b c : Nat) (tl : List (List Bytes))
+    (h : findAll anch key 3 data = [renderDec a, renderDec b, renderDec c] :: tl) :
+    ids3 anch key data = .ok (a, b, c) := by
+  simp [ids3, h, decOf_renderDec, bind, Except.bind, pure, Except.pure]
+
+theorem other_lines (r : StatusRec) (hwf : r.WF) :
+    (∀ kv ∈ r.pre, OtherLine kv) ∧ (∀ kv ∈ r.mid1, OtherLine kv) ∧ (∀ kv ∈ r.mid2, OtherLine kv) :=
+  ⟨fun kv h => hwf kv (by simp [h]), fun kv h => hwf kv (by simp [h]), fun kv h => hwf kv (by simp [h])⟩
+
+theorem uids_extract (c : Cfg) (hg : c.Good) (r : StatusRec) (hwf : r.WF) :
+    uids c (renderStatus r) = .ok (Spec.uids r) := by
+  obtain ⟨hpre, _, _⟩ := other_lines r hwf
+  unfold uids
+  rw [readStatus_good c hg, hg.uidAnchored, hg.uidKey]
+  have hshape : renderStatus r = renderLines ((keyName, escName r.comm) :: r.pre)
+      ++ (statusLine (keyUid, (idLine keyUid r.uid).2)
+        ++ renderLines ([idLine keyGid r.gid] ++ r.mid1 ++ [(keyThreads, renderDec r.threads)] ++ r.mid2
+            ++ [(keyVol, renderDec r.vol), (keyNonvol, renderDec r.nonvol)])) := by
+    simp [renderStatus, statusLines, renderLines, idLine]
+  obtain ⟨rr, hm⟩ := matchAt_idLine keyUid r.uid (renderLines ([idLine keyGid r.gid] ++ r.mid1
+    ++ [(keyThreads, renderDec r.threads)] ++ r.mid2
+    ++ [(keyVol, renderDec r.vol), (keyNonvol, renderDec r.nonvol)]))
+  obtain ⟨tl, htl⟩ := findAll_anch_lines keyUid key_facts.1 (by decide) 3
+    ((keyName, escName r.comm) :: r.pre) _ _ _ rr
+    (by
+      intro kv hkv
+      rcases List.mem_cons.mp hkv with h | h
+      · subst h; exact skippable_name keyUid key_facts.2.2.2.2.2.2.2.1 r.comm
+      · exact skippable_other keyUid kv (hpre kv h).1 (hpre kv h))
+    hm
+  rw [hshape]
+  exact ids3_of_head _ _ _ _ _ _ tl htl
+
+theorem gids_extract (c : Cfg) (hg : c.Good) (r : StatusRec) (hwf : r.WF) :
+    gids c (renderStatus r) = .ok (Spec.gids r) := by
+  obtain ⟨hpre, _, _⟩ := other_lines r hwf
+  unfold gids
+  rw [readStatus_good c hg, hg.gidAnchored, hg.gidKey]
+  have hshape : renderStatus r = renderLines ((keyName, escName r.comm) :: r.pre ++ [idLine keyUid r.uid])
+      ++ (statusLine (keyGid, (idLine keyGid r.gid).2)
+        ++ renderLines (r.mid1 ++ [(keyThreads, renderDec r.threads)] ++ r.mid2
+            ++ [(keyVol, renderDec r.vol), (keyNonvol, renderDec r.nonvol)])) := by
+    simp [renderStatus, statusLines, renderLines, idLine]
+  obtain ⟨rr, hm⟩ := matchAt_idLine keyGid r.gid (renderLines (r.mid1
+    ++ [(keyThreads, renderDec r.threads)] ++ r.mid2
+    ++ [(keyVol, renderDec r.vol), (keyNonvol, renderDec r.nonvol)]))
+  obtain ⟨tl, htl⟩ := findAll_anch_lines keyGid key_facts.2.1 (by decide) 3
+    ((keyName, escName r.comm) :: r.pre ++ [idLine keyUid r.uid]) _ _ _ rr
+    (by
+      intro kv hkv
+      simp only [List.cons_append, List.mem_cons, List.mem_append, List.not_mem_nil, or_false] at hkv
+      rcases hkv with h | h | h
+      · subst h; exact skippable_name keyGid key_facts.2.2.2.2.2.2.2.2.1 r.comm
+      · exact skippable_other keyGid kv (hpre kv h).2.1 (hpre kv h)
+      · subst h
+        exact skippable_idLine keyGid keyUid r.uid key_facts.2.2.2.2.2.2.2.2.2.2.1 key_facts.1
+          key_facts.2.2.2.2.2.1)
+    hm
+  rw [hshape]
+  exact ids3_of_head _ _ _ _ _ _ tl htl
+
+theorem numThreads_extract (c : Cfg) (hg : c.Good) (r : StatusRec) (hwf : r.WF) :
+    numThreads c (renderStatus r) = .ok (Spec.numThreads r) := by
+  obtain ⟨hpre, hmid1, _⟩ := other_lines r hwf
+  unfold numThreads
+  rw [readStatus_good c hg, hg.thrAnchored, hg.thrKey]
+  have hshape : renderStatus r
+      = renderLines ((keyName, escName r.comm) :: r.pre ++ [idLine keyUid r.uid, idLine keyGid r.gid] ++ r.mid1)
+      ++ (statusLine (keyThreads, renderDec r.threads)
+        ++ renderLines (r.mid2 ++ [(keyVol, renderDec r.vol), (keyNonvol, renderDec r.nonvol)])) := by
+    simp [renderStatus, statusLines, renderLines]
+  obtain ⟨tl, htl⟩ := findAll_anch_lines keyThreads key_facts.2.2.1 (by decide) 1
+    ((keyName, escName r.comm) :: r.pre ++ [idLine keyUid r.uid, idLine keyGid r.gid] ++ r.mid1) _ _ _ _
+    (by
+      intro kv hkv
+      simp only [List.cons_append, List.mem_cons, List.mem_append, List.not_mem_nil, or_false] at hkv
+      rcases hkv with h | (h | h | h) | h
+      · subst h; exact skippable_name keyThreads key_facts.2.2.2.2.2.2.2.2.2.1 r.comm
+      · exact skippable_other keyThreads kv (hpre kv h).2.2.1 (hpre kv h)
+      · subst h
+        exact skippable_idLine keyThreads keyUid r.uid key_facts.2.2.2.2.2.2.2.2.2.2.2.1 key_facts.1
+          key_facts.2.2.2.2.2.1
+      · subst h
+        exact skippable_idLine keyThreads keyGid r.gid key_facts.2.2.2.2.2.2.2.2.2.2.2.2 key_facts.2.1
+          key_facts.2.2.2.2.2.2.1
+      · exact skippable_other keyThreads kv (hmid1 kv h).2.2.1 (hmid1 kv h))
+    (matchAt_numLine keyThreads r.threads _)
+  rw [hshape, htl]
+  simp [decOf_renderDec, Spec.numThreads]
+
 end Psutil.C06
